@@ -103,6 +103,12 @@ MUTANTS = [
      "            self.writePackedDataRecord(h, data, new_tpos)",
      "                data = None\n\n"
      "            self.writePackedDataRecord(h, data, new_tpos)"),
+    ('C11', 'unadded-ghost-not-reloaded', CN,
+     "                    try:\n                        o._p_activate()\n                    except Exception:\n                        pass\n",
+     "                    pass\n"),
+    ('C12', 'unadded-ghost-not-reloaded-12', CN,
+     "                    try:\n                        o._p_activate()\n                    except Exception:\n                        pass\n",
+     "                    pass\n"),
     ('C13', 'undo-compares-blob-records-only', FS,
      "                    if data_to_be_undone != current_data or \\\n                            self.is_blob_record(current_data):",
      "                    if data_to_be_undone != current_data:"),
